@@ -359,23 +359,8 @@ func (u *ModelUpdates) addMutateOperation(dbModel model.DatabaseModel, table, uu
 			continue
 		}
 
-		var nativeValue interface{}
-		// Usually a mutation value is of the same type of the value being mutated
-		// except for delete mutation of maps where it can also be a list of same type of
-		// keys (rfc7047 5.1). Handle this special case here.
-		if mutation.Mutator == "delete" && column.Type == ovsdb.TypeMap && reflect.TypeOf(mutation.Value) != reflect.TypeOf(ovsdb.OvsMap{}) {
-			nativeValue, err = ovsdb.OvsToNativeSlice(column.TypeObj.Key.Type, mutation.Value)
-			if err != nil {
-				return err
-			}
-		} else {
-			nativeValue, err = ovsdb.OvsToNative(column, mutation.Value)
-			if err != nil {
-				return err
-			}
-		}
-
-		if err := ovsdb.ValidateMutation(column, mutation.Mutator, nativeValue); err != nil {
+		nativeValue, err := mutationValue(column, &mutation)
+		if err != nil {
 			return err
 		}
 
@@ -389,6 +374,9 @@ func (u *ModelUpdates) addMutateOperation(dbModel model.DatabaseModel, table, uu
 			// RFC 7047 5.1: the result of an arithmetic mutation on a real
 			// column must be representable
 			return ovsdb.NewRangeError(fmt.Sprintf("result of %q on column %q is out of range", mutation.Mutator, mutation.Column))
+		}
+		if err := ovsdb.ValidateValue(column, newValue); err != nil {
+			return err
 		}
 		if err := newInfo.SetField(mutation.Column, newValue); err != nil {
 			return err
@@ -438,6 +426,60 @@ func (u *ModelUpdates) addMutateOperation(dbModel model.DatabaseModel, table, uu
 	)
 
 	return err
+}
+
+// mutationValue returns the validated native value of a mutation of a column
+func mutationValue(column *ovsdb.ColumnSchema, mutation *ovsdb.Mutation) (interface{}, error) {
+	var nativeValue interface{}
+	var err error
+	// Usually a mutation value is of the same type of the value being mutated
+	// except for delete mutation of maps where it can also be a list of same type of
+	// keys (rfc7047 5.1). Handle this special case here.
+	if mutation.Mutator == "delete" && column.Type == ovsdb.TypeMap && reflect.TypeOf(mutation.Value) != reflect.TypeOf(ovsdb.OvsMap{}) {
+		nativeValue, err = ovsdb.OvsToNativeSlice(column.TypeObj.Key.Type, mutation.Value)
+	} else {
+		nativeValue, err = ovsdb.OvsToNative(column, mutation.Value)
+	}
+	if err != nil {
+		return nil, err
+	}
+	if err := ovsdb.ValidateMutation(column, mutation.Mutator, nativeValue); err != nil {
+		return nil, err
+	}
+	return nativeValue, nil
+}
+
+// ValidateOperation checks the values that an insert, update or mutate
+// operation carries against the schema of the columns they are meant for,
+// whether or not the operation ends up applying to any row
+func ValidateOperation(dbModel model.DatabaseModel, table string, op *ovsdb.Operation) error {
+	schema := dbModel.Schema.Table(table)
+	if schema == nil {
+		return nil
+	}
+	for column, value := range op.Row {
+		colSchema := schema.Column(column)
+		if colSchema == nil {
+			continue
+		}
+		nativeValue, err := ovsdb.OvsToNative(colSchema, value)
+		if err != nil {
+			return err
+		}
+		if err := ovsdb.ValidateValue(colSchema, nativeValue); err != nil {
+			return err
+		}
+	}
+	for i := range op.Mutations {
+		colSchema := schema.Column(op.Mutations[i].Column)
+		if colSchema == nil {
+			continue
+		}
+		if _, err := mutationValue(colSchema, &op.Mutations[i]); err != nil {
+			return err
+		}
+	}
+	return nil
 }
 
 // isFinite reports whether a real value, or every element of a set of reals,
